@@ -6,6 +6,6 @@ git -C /repo worktree add -q "$wt" HEAD || exit 2
 if ! git -C "$wt" apply "$patch"; then echo "PATCH DOES NOT APPLY"; git -C /repo worktree remove --force "$wt"; exit 3; fi
 for c in "$@"; do
   echo "== $c on $(basename "$patch")"
-  QV_REPO="$wt" /verif/check "$c" --tier quick 2>&1 | grep -E "^(OK|VIOLATION|KNOWN)" | cut -c1-220 | head -6
+  QV_REPO="$wt" "${QV_VERIF:-/verif}/check" "$c" --tier quick 2>&1 | grep -E "^(OK|VIOLATION|KNOWN)" | cut -c1-220 | head -6
 done
 git -C /repo worktree remove --force "$wt"
